@@ -399,17 +399,24 @@ End Effective.
 
 (* ARES_OPT_TIMEOUT in seconds is multiplied in 32 bits; above 2147483 s the channel's timeout
    exceeds INT_MAX ms and ares_save_options cannot represent it: init (save c) drops it *)
+Definition wt_chan : chan :=
+  mkChan 256 3000000000 3 1 0 false 0 0 0 0 [] [] (Some s_fb) 1232 3600 0 (2 ^ 13 + 2 ^ 21) 10 5000 0
+         [mkServer loopback 53 53 [] 0] [] 0 [] None.
+
 Lemma save_init_timeout_refuted :
-  exists o m c g o' m' c0,
-    init_by_options o m = Ok c /\ c_timeout c = 3000000000 /\ has (c_optmask c) B_TIMEOUTMS = true /\
-    save_options g (mkChan (c_flags c) (c_timeout c) 3 1 0 false 0 0 0 0 [] [] (Some s_fb) 1232 3600 0 (c_optmask c) 10 5000 0
-                           [mkServer loopback 53 53 [] 0] [] 0 [] None) = Ok (o', m') /\
-    init_by_options o' m' = Ok c0 /\ has (c_optmask c0) B_TIMEOUTMS = false /\ c_timeout c0 = 0.
-Proof.
-  exists (mkOpts 0 3000000 0 0 0 0 0 0 [] [] None 0 [] 0 0 0 0 0 0), 2.
-  eexists. exists 0. eexists. eexists. eexists.
-  vm_compute. repeat split; reflexivity.
-Qed.
+  (* the channel timeout is what ARES_OPT_TIMEOUT = 3000000 s produces ... *)
+  option_map c_timeout (match init_by_options (mkOpts 0 3000000 0 0 0 0 0 0 [] [] None 0 [] 0 0 0 0 0 0) 2 with Ok c => Some c | _ => None end)
+    = Some (c_timeout wt_chan) /\
+  Z.testbit (c_optmask wt_chan) B_TIMEOUTMS = true /\
+  (* ... and init (save c) has lost it *)
+  match save_options 0 wt_chan with
+  | Ok (o', m') => match init_by_options o' m' with
+                   | Ok c0 => Z.testbit (c_optmask c0) B_TIMEOUTMS = false /\ c_timeout c0 = 0
+                   | _ => False
+                   end
+  | _ => False
+  end.
+Proof. vm_compute. repeat split; reflexivity. Qed.
 
 (* the hypotheses of save_init_effective are satisfiable by a channel with most option bits set *)
 Definition ex_chan : chan :=
